@@ -56,6 +56,9 @@ def typed_structure(draw, min_atoms=1, max_atoms=8, tag_base=0, cell="lammps", t
         spec["type_elements"].append(e)
         spec["type_labels"].append("%s%s_%d" % (label_prefix, e, t))
         spec["type_masses"].append(round(ATOMIC_MASSES[e] + 0.001 * t, 6))
+    if ntypes >= 2 and draw(hperm.integers(0, 11)) == 0:
+        # one type without a label (an unlabelled fragment was merged in) next to labelled ones
+        spec["type_labels"][draw(hperm.integers(0, ntypes - 1))] = ""
     has_pair = draw(st.booleans()) if pair is None else pair
     if has_pair:
         spec["pair_coeffs"] = [draw(coeff_text(tagged="p%s%d" % (label_prefix, t))) for t in range(ntypes)]
